@@ -202,7 +202,7 @@ def replay_to_polygon(ctx, rnd, st, wlo, whi, idx, pid='C01'):
         region = geom.build(s, fr)
         if idx % 3 == 1 and float(region.width) == int(region.width) and float(region.height) == int(region.height) and max(region.width, region.height) < 250:
             # whole-number sizes handed over as unsigned numpy integers (a size read from an image header): still the same rectangle
-            region = type(region)(region.center, np.uint8(region.width), np.uint16(region.height), angle=region.angle)
+            region = type(region)(region.center, np.uint8(region.width), np.uint16(region.height), angle=region.angle, meta=region.meta.copy(), visual=region.visual.copy())
         region.meta['label'] = 'kept'
         region.visual['color'] = 'red'
         poly = region.to_polygon()
